@@ -243,6 +243,44 @@ pub fn c12_direct(w: &mut World, cx: &mut Cx, rng: &mut Rng) {
                     cx.violation("C12:indices:funding_index_decreased", || w2);
                 }
             }
+            // Who pays, at the level of the per-(side, collateral) indices: the funding-fee-per-size
+            // indices of the receiving side and the claimable-per-size indices of the paying side must
+            // not move. The paying side comes from the exact recomputation of the rate (in the
+            // non-adaptive mode that is the larger side).
+            {
+                let (long, short) = oi_totals(&m);
+                let fp = funding_params_big(&m);
+                let stored = bs(m.funding_factor_per_second);
+                // the duration the update really saw (the clock cannot be set before time 0)
+                let dur = m.now.saturating_sub(m.now.saturating_sub(dur));
+                if long != 0 && short != 0 && dur > 0 {
+                    if let Some(o) = oracle::next_funding_factor_per_second(&fp, &stored, dur, &bi(long), &bi(short)) {
+                        if !o.rate.is_zero() {
+                            let lps = o.longs_pay_shorts;
+                            // [k]: 0 long side fee idx, 1 short side fee idx, 2 long side claimable, 3 short side claimable
+                            let receiver_fee = if lps { 1 } else { 0 };
+                            let payer_claim = if lps { 2 } else { 3 };
+                            for (k, what) in [(receiver_fee, "receiving_side_charged_funding"), (payer_claim, "paying_side_credited_claimable")] {
+                                if after[k].long_amount != before[k].long_amount || after[k].short_amount != before[k].short_amount {
+                                    let w2 = json!({"site": "direct_probe", "pool": k, "longs_pay_shorts": lps,
+                                        "long_open_interest": long.to_string(), "short_open_interest": short.to_string(),
+                                        "before": format!("{:?}", before[k]), "after": format!("{:?}", after[k]),
+                                        "market": market_json(&m), "prices": prices_json(&prices)});
+                                    cx.violation(&format!("C12:indices:{what}"), || w2);
+                                }
+                            }
+                            let payer_fee = if lps { 0 } else { 1 };
+                            let moved = after[payer_fee].long_amount != before[payer_fee].long_amount || after[payer_fee].short_amount != before[payer_fee].short_amount;
+                            cx.count(if moved { "c12_payer_indices_moved" } else { "c12_payer_indices_unmoved(rounding to 0 or no payer interest in that collateral)" });
+                            if fp.increase.is_zero() {
+                                cx.count("c12_who_pays_checked_fallback");
+                            } else {
+                                cx.count("c12_who_pays_checked_adaptive");
+                            }
+                        }
+                    }
+                }
+            }
             let maxb = bi(*m.config.funding_fee_params.max_factor_per_second());
             if bs(mm.funding_factor_per_second).abs() > maxb {
                 let w2 = json!({"site": "direct_probe", "stored": mm.funding_factor_per_second.to_string(),
